@@ -7,15 +7,15 @@ from props import PROPS
 TEXT = {
  "C01": ("Lean theorem C01_collect: for every source, op chain, target, worker set, accepted assignment (tiling of the index range, any chunk-to-thread assignment, any thread order) the predicted collect result equals the sequential chain; run_accepts shows every schedule yields such an assignment. Tie: outcomes, observed assignments and acceptance compared on every case.", "§6 C01"),
  "C02": ("Lean theorem C02_find over every trace in which each worker scans its chunks in order and the evaluated prefix contains the least found position: result = least matching source position; tie by controlled schedules (late worker holds chunk 0).", "§6 C02"),
- "C03": ("Lean theorems C03_reduce (associative+commutative op, any tiling, any thread order) and C03_select (by-key selections pick an extremal survivor).", "§6 C03"),
- "C04": ("Lean theorem C04_count / C04_for_each for every tiling and thread order, chunk-1 and chunked paths incl. the nested loop of filtermap_fil_cnt.", "§6 C04"),
+ "C03": ("Lean theorems C03_reduce (associative+commutative op, any tiling, any thread order), C03_min_by_key / C03_max_by_key (by-key selections pick an extremal survivor), C03_reduce_all_schedules (every finished schedule of the worker transition system).", "§6 C03"),
+ "C04": ("Lean theorem C04_count / C04_for_each for every tiling and thread order, chunk-1 and chunked paths incl. the nested loop of filtermap_fil_cnt; C04_count_all_schedules for every finished schedule.", "§6 C04"),
  "C05": ("Lean theorems on the logged stream algebra: event multiset of every chain = sequential (32 site lemmas, induction over chains), C05_term_events for the terminal closures, C05_kernel_step for the kernels' per-element work, C05_mutex / C05_yield_once / C05_source_complete on the transcribed ticket protocol (mutual exclusion, each element handed out once at its true index, and — without skip_to_end — all of them). Tie: the model's (stage,arg) invocation multiset is compared with the recorded real invocations on every case (digest), plus the std oracle.", "§6 C05"),
- "C06": ("Lean theorem C06_collect_into per branch of the three ParCollectIntoCore impls: result = pre ++ sequential result.", "§6 C06"),
- "C07": ("Lean theorem C07_collect_x: fragments appended in spawn order are a permutation of the sequential result for every tiling.", "§6 C07"),
+ "C06": ("Lean theorem C06_collect_into per branch of the three ParCollectIntoCore impls: result = pre ++ sequential result; C06_collect_into_all_schedules for every finished schedule.", "§6 C06"),
+ "C07": ("Lean theorem C07_collect_x: fragments appended in spawn order are a permutation of the sequential result for every tiling; C07_collect_x_all_schedules for every finished schedule.", "§6 C07"),
  "C08": ("Lean theorems C08_max_threads, C08_spawn_bound, C08_at_most_n_workers: under Max(n) at most n workers for every has_more stream and every lag>=1; sequential entry points ignore the runner. Tie: do_spawn / calc_num_threads exactly (L0) and real thread counts from worker hooks. One known finding (reduce operator also runs on the caller).", "§6 C08"),
- "C09": ("Lean theorem C09_seq: in sequential mode every terminal equals the std value (left fold for arbitrary operators) and per-stage argument order is the std order.", "§6 C09"),
- "C10": ("Lean theorems C10_after_publication (no pull succeeds after skip_to_end, each worker evaluates at most its held chunk) and C10_seq (sequential find evaluates exactly the lazy prefix).", "§6 C10"),
- "C11": ("Lean theorems C11_resolved, C11_runner, C11_next_chunk, C11_workers: Exact(c) reaches every worker ever spawned, for every has_more stream. Tie: calc_chunk_size/next_chunk_size exactly (L0), chunk handed to each real worker, aligned blocks and next() bursts observed.", "§6 C11"),
+ "C09": ("Lean theorems C09_seq_value / C09_stage_order: in sequential mode every terminal equals the std value (left fold for arbitrary operators) and per-stage argument order is the std order; C09_max_by_key_is_the_last_maximum / C09_min_by_key_is_the_first_minimum: ties as Iterator::max_by / min_by (after fix: dec7df0).", "§6 C09"),
+ "C10": ("Lean theorems C10_after_publication (no pull succeeds after skip_to_end, each worker evaluates at most its held chunk) C10_seq (sequential find evaluates exactly the lazy prefix), C10_seq_consumes_up_to_the_match, C10_terminates_fair (unbounded sources, fair rounds).", "§6 C10"),
+ "C11": ("Lean theorems C11_resolved, C11_runner, C11_next_chunk, C11_workers: Exact(c) reaches every worker ever spawned, for every has_more stream; C11_pulls / C11_blocks / C11_end_to_end: under every schedule every pull is an aligned block of exactly c elements. Tie: calc_chunk_size/next_chunk_size exactly (L0), chunk handed to each real worker, aligned blocks and next() bursts observed.", "§6 C11"),
  "C12": ("Lean theorem C12_params by induction over arbitrary op lists from all 32 site lemmas + setters; C12_ofNat; C12_is_sequential. Tie: params()/is_sequential() after every call of every chain x setter position (exhaustive over the finite site family).", "§6 C12"),
  "C13": ("Lean theorem on the resource model: returned ⊎ dropped = created, no bad drop.", "§6 C13"),
  "C14": ("Lean theorems: C14_propagates / C14_evaluated_panics on a transcription of the join structure of Runner::{run,run_map,reduce} and std's scope/join/expect (any worker evaluating the panicking invocation => the call panics; C14_no_spurious_panic otherwise), C14_pred_no_sound / C14_pred_yes_full (the panic prediction compared with the real call on every case), C14_bag_unwind_no_bad on the cell-level bag model (guarded unwinding drops nothing; the pre-fix behaviour provably drops never-initialised cells).", "§6 C14"),
